@@ -826,7 +826,10 @@ def addrg_setup(eng):
             from pyvc.engine import BoundMethod
             if attr == 'copy':
                 return BoundMethod('copy', lambda e, a, k: Header())
-            return BoundMethod(attr, lambda e, a, k: {'HD': {'VN': '1.6'}, 'SQ': [{'SN': 'chr1', 'LN': 10}]})
+            d = {'HD': {'VN': '1.6'}, 'SQ': [{'SN': 'chr1', 'LN': 10}]}
+            if eng_.ghost.get('origin_has_rg'):
+                d['RG'] = [{'ID': 'lane1', 'SM': 'aligner_sample'}]      # read groups the aligner declared (other ids)
+            return BoundMethod(attr, lambda e, a, k: d)
 
     def opener(e, a, k, n):
         fault(e, 'open')
@@ -860,6 +863,19 @@ add_rg = Contract(
     assumptions=['replace_bam_header through its own contract above (may fail); pysam header copy/to_dict as a dictionary (A4)'],
 )
 UNITS.append(add_rg)
+
+import copy as _copy2      # noqa: E402
+add_rg_existing = _copy2.copy(add_rg)
+add_rg_existing.name = 'add_readgroups_to_header[the input header already declares other read groups]'
+
+
+def _addrg_setup_existing(eng):
+    addrg_setup(eng)
+    eng.ghost['origin_has_rg'] = True
+
+
+add_rg_existing.setup = _addrg_setup_existing
+UNITS.append(add_rg_existing)
 
 
 # ------------------------------------------------------------------------------ write_status: what the marker file holds
